@@ -42,17 +42,28 @@ func (w *c11Writer) size() (int, int) {
 	return len(w.data), w.writes
 }
 
+// c11Source: an io.Reader over data.  chunk > 0 limits what one call
+// returns; eofWithData makes the call that returns the last bytes report
+// io.EOF at the same time (both are within the io.Reader contract).
 type c11Source struct {
-	data []byte
-	pos  int
+	data        []byte
+	pos         int
+	chunk       int
+	eofWithData bool
 }
 
 func (s *c11Source) Read(p []byte) (int, error) {
 	if s.pos >= len(s.data) {
 		return 0, io.EOF
 	}
+	if s.chunk > 0 && len(p) > s.chunk {
+		p = p[:s.chunk]
+	}
 	n := copy(p, s.data[s.pos:])
 	s.pos += n
+	if s.eofWithData && s.pos >= len(s.data) {
+		return n, io.EOF
+	}
 	return n, nil
 }
 
@@ -84,7 +95,7 @@ func VerifC11_FilterOutputCompleteAtReturn() {
 	verifOwnPanics()
 	verifHexModel()
 	mode := verifParam("schedule", 0, 2) // lazy, round-robin, all schedules with <= 1 preemption
-	verifSchedule(mode, 1+verifTier()) // thorough: up to two preemptions
+	verifSchedule(mode, 1+verifTier())   // thorough: up to two preemptions
 	in := c11Input()
 	w := &c11Writer{}
 	// the optional logs on and off: their writers are fast, the output
